@@ -583,12 +583,20 @@ impl FunctionCompiler<'_> {
                 value,
                 ..
             } => {
-                let value = value.and_then(|value| {
-                    let referenced_block_ty =
-                        self.tys[self.loc][self.world_bodies[self.loc.file()][label]];
+                let referenced_block_ty =
+                    self.tys[self.loc][self.world_bodies[self.loc.file()][label]];
 
-                    self.compile_and_cast(value, referenced_block_ty)
-                });
+                let value = match value {
+                    Some(value) => self.compile_and_cast(value, referenced_block_ty),
+                    // a valueless `break;` / `return;` out of a block whose type has a size but
+                    // can be created from nothing (`?void`, `Err!void`): the exit expects a value
+                    None if !referenced_block_ty.is_zero_sized()
+                        && referenced_block_ty.can_be_created_from_nothing() =>
+                    {
+                        self.cast(None, Ty::Void.into(), referenced_block_ty)
+                    }
+                    None => None,
+                };
 
                 self.break_to_label(value, label);
             }
